@@ -19,7 +19,18 @@ PROBES = ['packet_items_with_equal_ids', 'tiny_amounts', 'head_cancelled_with_sa
 
 
 def gen(rng, tier):
-    return gen_store_case(rng, tier)
+    case = gen_store_case(rng, tier)
+    if rng.random() < 1 / 250:
+        # a crowd: well over a thousand getters waiting on an empty container when one large delivery arrives
+        n = rng.randint(1100, 1400)
+        crowd = [{'id': 'x%d' % j, 'ops': [{'op': 'get', 'amount': 1, 'patience': None, 'style': 'manual', 'on_intr': 'leave',
+                                            'exit_exc': False}]} for j in range(n)]
+        crowd.append({'id': 'xp', 'ops': [{'op': 'sleep', 'd': 1}, {'op': 'put', 'amount': n - rng.choice([0, 0, 7]),
+                                                                     'patience': None, 'style': 'manual', 'on_intr': 'leave',
+                                                                     'exit_exc': False}]})
+        case = {'engine': 'R', 'kind': 'Container', 'capacity': None, 'init': 0, 't0': case.get('t0', 0), 'procs': crowd,
+                'interrupts': [], 'order': [c['id'] for c in crowd], 'crowd': True}
+    return case
 
 
 def _match(spec, uid):
@@ -255,7 +266,7 @@ def _op(case, pid, opi):
 
 
 def run(case):
-    w = run_case(case)
+    w = run_case(case, max_steps=20000 if case.get("crowd") else 6000)
     viol, stats, nontrivial = check(w)
     for e in w.raised:
         viol.append(('C07.6', 'the run raised %r' % (e,)))
